@@ -43,6 +43,10 @@ def full_arrays(spec):
     n = int(spec["n"])
     hi, lo = spec["logf"]
     f = np.logspace(hi, lo, n) if n > 1 else np.array([10.0 ** hi])
+    warp = spec.get("warp")
+    if warp and n > 2:
+        # a sibling grid: same number of points and the same first and last frequency, other interior frequencies
+        f = 10.0 ** (hi + (lo - hi) * np.linspace(0.0, 1.0, n) ** float(warp))
     circuit = pyimpspec.parse_cdc(spec["cdc"])
     Z = circuit.get_impedances(f)
     pct = float(spec.get("noise_pct", 0.0))
@@ -128,6 +132,22 @@ def build_data(spec):
             ds.get_num_points()
             if mask:
                 ds.set_mask(dict(mask))
+        return ds
+    cm = spec.get("complete_mask")
+    if cm:
+        # the same mask given as a complete dictionary (one entry per point) whose keys are in descending or
+        # shuffled insertion order, handed to the constructor or to set_mask() afterwards
+        rs = np.random.RandomState(int(cm))
+        keys = list(range(n))
+        if rs.randint(0, 2) == 0:
+            keys.reverse()
+        else:
+            rs.shuffle(keys)
+        if rs.randint(0, 2) == 0:
+            return DataSet(f_in, Z_in, label=spec.get("label", "sim"), mask={int(i): bool(mask.get(int(i), False)) for i in keys})
+        ds = DataSet(f_in, Z_in, label=spec.get("label", "sim"))
+        own = {int(i): True for i in np.where(masked)[0]}  # set_mask() indices refer to the data set's own (descending) order
+        ds.set_mask({int(i): bool(own.get(int(i), False)) for i in keys})
         return ds
     if mask or spec.get("explicit_mask"):
         kw["mask"] = mask
